@@ -270,6 +270,8 @@ func runRep(in inst) rep {
 			err = runHost(in, out)
 		case "interps":
 			err = runInterps(in, out)
+		case "hostiface":
+			err = runHostIface(in, out)
 		}
 		if err != nil {
 			done <- err.Error()
@@ -397,6 +399,51 @@ func runHost(in inst, out *lockedBuf) error {
 		return err
 	}
 	fmt.Fprintln(out, 0, tv.Interface())
+	return nil
+}
+
+// runHostIface: n host goroutines call the exported function Apply(id, c), each with its own
+// channel; the channels are fed in the reverse order once the callers have been started.
+func runHostIface(in inst, out *lockedBuf) error {
+	i := newInterp(out)
+	if _, err := i.Eval(in.script()); err != nil {
+		return err
+	}
+	fv, err := i.Eval("Apply")
+	if err != nil {
+		return err
+	}
+	f, ok := fv.Interface().(func(int, chan int) int)
+	if !ok {
+		return fmt.Errorf("Apply has type %s", fv.Type())
+	}
+	res := make([]int, in.N+1)
+	errs := make([]string, in.N+1)
+	cs := make([]chan int, in.N+1)
+	var h sync.WaitGroup
+	h.Add(in.N)
+	for k := 1; k <= in.N; k++ {
+		cs[k] = make(chan int)
+		go func(k int) {
+			defer h.Done()
+			defer func() {
+				if r := recover(); r != nil {
+					errs[k] = fmt.Sprintf("panic in Apply(%d): %v", k, r)
+				}
+			}()
+			res[k] = f(k, cs[k])
+		}(k)
+	}
+	for k := in.N; k >= 1; k-- {
+		cs[k] <- k*10 + in.M
+	}
+	h.Wait()
+	for k := 1; k <= in.N; k++ {
+		if errs[k] != "" {
+			return fmt.Errorf("%s", errs[k])
+		}
+		fmt.Fprintln(out, k, res[k])
+	}
 	return nil
 }
 
